@@ -72,6 +72,38 @@ def check_pure(ctx, cs):
             ok, r = _try(ctx, site, tg, small, fn)
             if ok and not close_seq(r, exp):
                 ctx.violate(site, tg, small, {"expected": exp, "got": r})
+        # the file wrappers of the 2-D conversions: (x, y, z, w) rows -> (xw, yw, zw, w) rows -> back, on a grid with
+        # a different number of rows and columns (2 rows of n points) and on the square grid of the helper test above
+        import os, tempfile
+        d = tempfile.mkdtemp(prefix="verif_c09_")
+        try:
+            def save(grid, fn):
+                with open(fn, "w") as f:
+                    for row in grid:
+                        f.write(";".join(",".join(repr(float(x)) for x in q) for q in row) + "\n")
+
+            def load(fn):
+                with open(fn) as f:
+                    return [[[float(x) for x in q.split(",")] for q in line.strip().split(";")] for line in f if line.strip()]
+            for label, gin, gw in (("2xn", [xyzw, xyzw[::-1]], [Pw, Pw[::-1]]), ("nxn", [xyzw[i:] + xyzw[:i] for i in range(len(xyzw))], [Pw[i:] + Pw[:i] for i in range(len(Pw))])):
+                t2 = tg + ["file", "grid=" + label, "square" if len(gin) == len(gin[0]) else "nonsquare"]
+                fi, fo, fb = (os.path.join(d, x + label) for x in ("in", "out", "back"))
+                try:
+                    save(gin, fi)
+                    compatibility.generate_ctrlptsw2d_file(fi, fo)
+                    got = load(fo)
+                    if not close_seq(got, gw):
+                        ctx.violate("compatibility.generate_ctrlptsw2d_file", t2, small, {"rows": len(got), "expected_rows": len(gw), "row0": got[0] if got else got})
+                        continue
+                    compatibility.generate_ctrlpts2d_weights_file(fo, fb)
+                    back = load(fb)
+                    if not close_seq(back, gin):
+                        ctx.violate("compatibility.generate_ctrlpts2d_weights_file", t2, small, {"rows": len(back), "row0": back[0] if back else back})
+                except Exception as e:
+                    ctx.violate("compatibility.generate_ctrlptsw2d_file", t2 + ["raises"], small, {"exception": repr(e)[:200]})
+        finally:
+            import shutil
+            shutil.rmtree(d, ignore_errors=True)
     elif o["op"] == "convert":
         sh = c["sh"]
         kind = KIND[len(sh["deg"])]
